@@ -271,6 +271,8 @@ def run_check(prop, tier, seed, t0):
             printed.add(kf['id'])
             print('KNOWN-FINDING: property=%s %s' % (prop, kf['what']))
     rc = 0
+    # concrete failing inputs first
+    final.sort(key=lambda v: 1 if v['no_input'] else 0)
     for v in final[:20]:
         p = write_replay(prop, v)
         print('VIOLATION property=%s replay=%s%s' % (prop, p, ' no-failing-input-found' if v['no_input'] else ''))
